@@ -251,9 +251,10 @@ def malformed_probe(scen):
     kind = scen["malformed"]
     signal.signal(signal.SIGALRM, impl_trace._alarm)
     signal.alarm(20)
+    compiled = None
     try:
         repo = DslStrRepository(scen["dsl"], "warning", cfg)
-        Compiler(cfg, "warning", repo=repo).compile()
+        compiled = Compiler(cfg, "warning", repo=repo).compile()
     except JobShopException:
         return []
     except impl_trace.StepTimeout:
@@ -264,8 +265,23 @@ def malformed_probe(scen):
                  "step": None, "scenario": scen["id"], "facts": {"always": True}}]
     finally:
         signal.alarm(0)
-    return [{"property": "C16", "sig": f"malformed-accepted:{kind}", "detail": "compiled without complaint", "step": None,
-             "scenario": scen["id"], "facts": {"always": True}}]
+    out = [{"property": "C16", "sig": f"malformed-accepted:{kind}", "detail": "compiled without complaint", "step": None,
+            "scenario": scen["id"], "facts": {"always": True}}]
+    if kind.startswith("init-store") and compiled is not None:
+        # C17: what was compiled instead - is every job in exactly one buffer, the one its location names?
+        _inst, st = compiled
+        holders = {}
+        bufs = list(st.buffers) + [b for m in st.machines for b in (m.prebuffer, m.buffer, m.postbuffer)] + [t.buffer for t in st.transports]
+        for b in bufs:
+            for j in b.store:
+                holders.setdefault(j, []).append(b.id)
+        known = {j.id: j.location for j in st.jobs}
+        bad = [f"{j} in {hs}" for j, hs in holders.items() if len(hs) != 1 or j not in known or known[j] != hs[0]]
+        bad += [f"{j} in no buffer" for j in known if j not in holders]
+        if bad:
+            out.append({"property": "C17", "sig": "initial-state-not-conserved:inconsistent-listing-compiled",
+                        "detail": "; ".join(bad)[:300], "step": None, "scenario": scen["id"], "facts": {"always": True}})
+    return out
 
 
 def c17_twin(run, scen):
